@@ -1201,4 +1201,25 @@ example : paramOutLine false 5 [⟨true, 1⟩, ⟨false, 0⟩, ⟨true, 0⟩] 2 
     entryInLine false 5 [⟨true, 1⟩, ⟨false, 0⟩, ⟨true, 0⟩] 2 = 9 ∧
     typeOutLine false 5 [⟨true, 1⟩, ⟨false, 0⟩, ⟨true, 0⟩] 2 = 10 := by decide
 
+/-- google / numpy: the offset pydoctor uses for a nonexistent parameter is the line of `:param`
+in the converted text -/
+theorem converted_param_offset (numpy : Bool) (hdr : Nat) (es : List Entry) (k : Nat) :
+    convertedParamOffset numpy hdr es k = (paramOutLine numpy hdr es k : Nat) := by
+  simp [convertedParamOffset, fieldStoredLineno, docutilsBase]
+
+/-- google: the warning for entry `k` is on the line the entry is written on **iff exactly one
+entry before it is typed**; otherwise it is `typedBefore − 1` lines off (one line high for the
+first entries, low after the second typed one). -/
+theorem google_param_line_correct_iff (hdr : Nat) (es : List Entry) (k : Nat) :
+    convertedParamOffset false hdr es k = (entryInLine false hdr es k : Nat) ↔ typedCount (es.take k) = 1 := by
+  have := napoleon_param_divergence_google hdr es k
+  rw [converted_param_offset]
+  omega
+
+theorem google_param_reported_vs_written (hdr : Nat) (es : List Entry) (k : Nat) :
+    convertedParamOffset false hdr es k + 1 = (entryInLine false hdr es k : Nat) + (typedCount (es.take k) : Nat) := by
+  have := napoleon_param_divergence_google hdr es k
+  rw [converted_param_offset]
+  omega
+
 end Lineno
